@@ -293,6 +293,8 @@ def run(ctx):
         S = B.gen_market(r2, ndays=r2.randrange(7, 15), opts={"p_div": 1.0 if k % 3 == 0 else 0.6, "p_split": 0.4, "p_sus": 0.1, "p_delist": 0.1, "early_announce": k % 3 == 0, "p_two_div": 1.0 if k % 3 == 0 else 0.2},
                          **({"warm": 0} if first_day else {}), **({"n_stocks": 3} if k % 3 == 0 else {}))
         cfgk = trading.gen_config(r2, S, {"no_signal": True, "p_reinvest": 0.5, "p_init_pos": 1.0 if init_day else 0.15})
+        if k % 3 == 1:
+            cfgk["sim"]["matching_type"] = "vwap"          # the day's turnover / volume is the execution price: the second price a matcher could read too early
         if not cfgk["accounts"] or not S["stocks"]:
             continue
         if init_day and "stock" not in cfgk["accounts"]:
